@@ -271,7 +271,7 @@ def subprocess_validation(run, t):
         notobj = os.path.join(d, "notobj.bin")
         open(notobj, "w").write("plain text, not an object file\n")
         # failing operation: non-zero exit status
-        for argv_tail, why in ((["-p", "missing.yaml", "-s", "in.s"], "missing pattern file"), (["-p", "found.yaml", "-s", "missing.s"], "missing input"), (["-p", "found.yaml", "-b", "notobj.bin"], "binary that objdump rejects"), (["-p", "found.yaml", "-b", "missing.bin"], "missing binary"), (["-p", "found.yaml"], "neither -s nor -b"), (["-s", "in.s"], "no -p"), (["-p", "found.yaml", "-s", "in.s", "-b", "in.s"], "both -s and -b")):
+        for argv_tail, why in ((["-p", "missing.yaml", "-s", "in.s"], "missing pattern file"), (["-p", "found.yaml", "-s", "missing.s"], "missing input"), (["-p", "found.yaml", "-b", "notobj.bin"], "binary that objdump rejects"), (["-p", "found.yaml", "-b", "in.s"], "a text listing given with -b (the library refuses it as a binary)"), (["-p", "found.yaml", "-b", "missing.bin"], "missing binary"), (["-p", "found.yaml"], "neither -s nor -b"), (["-s", "in.s"], "no -p"), (["-p", "found.yaml", "-s", "in.s", "-b", "in.s"], "both -s and -b")):
             p = subprocess.run([ch.PY, "-m", "jasm.main"] + argv_tail, cwd=d, env=env, capture_output=True, text=True, timeout=120)
             run.count("traces_validated_against_impl")
             if p.returncode == 0 or "RESULT: Pattern" in p.stderr:
